@@ -87,9 +87,15 @@ def export_facts(tier, repo=None):
             so, se = p.communicate()
             if p.returncode != 0 or "error:" in se:
                 errs.append((b, se))
-        if errs:
-            msg = "; ".join("%s: %s" % (b, [l for l in se.splitlines() if "error" in l][:3]) for b, se in errs)
-            raise AnalysisBroken("driver(s) do not compile against the current tree: " + msg)
+        failed = {}
+        for b, se in errs:
+            failed[b] = [l for l in se.splitlines() if "error" in l][:3]
+            try:
+                os.remove(os.path.join(out, b + ".json"))
+            except OSError:
+                pass
+        with open(os.path.join(out, "FAILED.json"), "w") as f:
+            json.dump(failed, f)
         open(done, "w").write(time.strftime("%F %T"))
         # keep at most 4 cached hashes
         ents = sorted(glob.glob(os.path.join(CACHE, "*")), key=os.path.getmtime)
@@ -110,6 +116,10 @@ class Facts:
 
     def load(self, name):
         if name not in self._loaded:
+            fp = os.path.join(self.dir, "FAILED.json")
+            failed = json.load(open(fp)) if os.path.exists(fp) else {}
+            if name in failed:
+                raise AnalysisBroken("instantiation driver `%s` does not compile against the current tree (a member that the tests never instantiate may not compile): %s" % (name, failed[name]))
             with open(os.path.join(self.dir, name + ".json")) as f:
                 self._loaded[name] = json.load(f)
         return self._loaded[name]
